@@ -298,6 +298,7 @@ class World:
 
     def start(self, persistence=False):
         gateway = self.gateway
+        self.persist_t0 = self.sim.now  # the save schedule counts its first 10 s from here
         if is_async(self.flavour):
             if persistence:
                 self.acall(gateway.start_persistence())
